@@ -1122,10 +1122,10 @@ func (x *rawRun) menu() []action {
 			x.scanEmitted()
 			x.inTimerStep = false
 			emitted := x.sent[before:]
+			if x.has('r') && len(emitted) > 1 {
+				x.fail("C05", "burst-on-timeout", "burst-on-timeout", "%d data segments were sent on one retransmission timeout (nothing arrived from the peer in this step; exactly one is allowed)", len(emitted))
+			}
 			if silent && x.has('r') {
-				if len(emitted) > 1 {
-					x.fail("C05", "burst-on-timeout", "burst-on-timeout", "%d data segments were sent on one retransmission timeout while the peer is silent (exactly one allowed)", len(emitted))
-				}
 				if len(emitted) == 1 {
 					x.silentLeft--
 					x.rtxTimes = append(x.rtxTimes, emitted[0].at)
